@@ -7,6 +7,18 @@ hook_shas = [l.split()[0] for l in hooks_commits if l.split(' ',1)[1].startswith
 
 # property id -> (engine, technique, level text, level note, design_ref)
 CHECKS = {
+ 'C06': ('enum', 'bounded-exhaustive enumeration of texts x sets of known selections (dense: all ranges; sparse: reference+candidate) x every reference (range, 2-element set, annotation) x 82 operator variants, against the relation test applied to every known selection',
+         'For every prefix (length 0..10 quick / 0..12 thorough) of a text with whitespace runs, plus a long-gap and a multi-byte text: on a resource where all (L+1)(L+2)/2 ranges are known selections and on sparse resources, every reference selection, ordered pair as set, and annotation, through all five related_text entry points: the result must be exactly the known selections for which reference.test(op, candidate) holds, each once, in textual order.',
+         'Bounded text length; the relation test itself is the oracle (C13 decides its correctness); InSet/SameRange/Equals{all} not included.', 'DESIGN.md section 4 C06'),
+ 'C09': ('query', 'bounded-exhaustive enumeration of token sequences (48-token alphabet x 7 grammar contexts x 3 joiners) and of all prefixes / single edits of 56 seed queries for totality; 5931 grammar-derived and 278 programmatic queries for the print/parse fixpoint',
+         'Every Query::parse call runs under a panic catcher: any panic is a violation. For every query that parses (or is built programmatically and prints): print -> parse succeeds, the structure (type, name, qualifier, constraint tree, sub-queries, assignments) is equal, printing again gives the same text, and results on small stores are equal.',
+         'Bounded sequence length (4 quick / 5 thorough); arbitrary Unicode only through two non-ASCII tokens; hangs not watchdogged.', 'DESIGN.md section 4 C09'),
+ 'C12': ('enum', 'bounded-exhaustive enumeration of texts x positions/bytes x receivers x milestone intervals x shrink_to_fit x sets of prior annotations against naive char counting; differential battery and history replay across configurations',
+         'utf8byte / utf8byte_to_charpos for every position and byte (also beyond the end and inside characters) on resources and every sub-selection, for milestone intervals 0,1,2,3,7,100, shrink_to_fit on/off and every set of <= 2 prior annotations: equal to char_indices counting, round trip identity, Err outside the domain; a battery of 15 observation kinds and the states of the history exploration give identical results under all 24 configurations.',
+         'Layered bounds (alphabet x length x annotations) stated in the evidence; differential part cannot see errors common to all configurations.', 'DESIGN.md section 4 C12'),
+ 'C20': ('sched', 'stateless exploration of thread schedules of the real code under a controlled baton scheduler (yield points H2 before every lock operation), DFS with CHESS-style preemption bounding',
+         'For three store kinds (inline, stand-off members, stand-off with changed dataset) and every multiset of 2 (quick) / 2-3 (thorough) reader bodies out of five (store / dataset / second dataset / resource serialisation, query + parallel iteration): every schedule with at most 2 (quick) / 3 (thorough) preemptions is executed with real threads; each thread must return what it returns alone, and a store serialisation afterwards must equal the sequential one; deadlock and schedule divergence are detected.',
+         'Sequentially consistent interleavings at lock operations only (no weak memory, no data-race detection); save() racing on files not covered.', 'DESIGN.md section 4 C20'),
  'C04': ('enum', 'bounded-exhaustive enumeration of texts x nesting chains x all ordered pairs of cursors through every offset entry point, against the plain-string slice and the acceptance rule of the statement',
          'For every text (empty, 1-4 byte codepoints), every chain of parent ranges up to nesting depth 1 (quick) / 3 (thorough) and every ordered pair of cursors of both alignments (in range, at the ends, beyond, positive end-aligned, extreme values): annotate with a TextSelector / relative AnnotationSelector, FindText::textselection and text_by_offset on resources and sub-selections accept exactly when 0 <= begin <= end <= length and then select exactly those codepoints; every reported offset in all four modes is well-formed and re-resolves to the same range.',
          'Bounded text length (<= 8 codepoints) and nesting depth.', 'DESIGN.md section 4 C04'),
